@@ -48,6 +48,8 @@ type gen1Result struct {
 }
 
 func cmdGen1(specPath, outDir string, client bool) int {
+	// never outlive the parent's patience (a parent that is killed cannot kill us)
+	time.AfterFunc(100*time.Second, func() { os.Exit(3) })
 	bs, err := os.ReadFile(specPath)
 	if err != nil {
 		fmt.Fprintln(os.Stderr, err)
